@@ -521,6 +521,19 @@ impl Ctx {
         for (k, v) in self.extra.lock().unwrap().iter() {
             cov.insert(k.clone(), v.clone());
         }
+        if std::env::var("VERIF_AUX").is_err() {
+            let auxp = format!("{}/evidence/aux/{}.wrapping.json", verif_dir(), self.prop);
+            if let Ok(sx) = std::fs::read_to_string(&auxp) {
+                if let Ok(v) = serde_json::from_str::<Value>(&sx) {
+                    if v["tier"] == json!(self.tier.name()) {
+                        cov.insert(
+                            "wrapping_arithmetic_build".into(),
+                            json!({"evaluations": v["coverage"]["evaluations"], "violations": v["violations"], "wall_s": v["wall_s"], "note": "same enumeration re-run with overflow-checks and debug-assertions off"}),
+                        );
+                    }
+                }
+            }
+        }
         let ev = json!({
             "property_id": self.prop,
             "tier": self.tier.name(),
@@ -531,9 +544,23 @@ impl Ctx {
             "wall_s": (self.start.elapsed().as_secs_f64()*1000.0).round()/1000.0,
             "violations": nv,
         });
-        let dir = format!("{}/evidence", verif_dir());
+        // auxiliary runs (e.g. the wrapping-arithmetic build) keep their evidence apart from the primary file
+        let aux = std::env::var("VERIF_AUX").ok();
+        let dir = match &aux {
+            Some(_) => format!("{}/evidence/aux", verif_dir()),
+            None => format!("{}/evidence", verif_dir()),
+        };
         let _ = std::fs::create_dir_all(&dir);
-        let path = format!("{}/{}.json", dir, self.prop);
+        let path = match &aux {
+            Some(a) => format!("{}/{}.{}.json", dir, self.prop, a),
+            None => format!("{}/{}.json", dir, self.prop),
+        };
+        if aux.is_none() && self.tier == Tier::Thorough {
+            // keep the last thorough evidence next to the quick one
+            let tdir = format!("{}/evidence/thorough", verif_dir());
+            let _ = std::fs::create_dir_all(&tdir);
+            let _ = std::fs::write(format!("{}/{}.json", tdir, self.prop), serde_json::to_string_pretty(&ev).unwrap());
+        }
         if let Err(e) = std::fs::write(&path, serde_json::to_string_pretty(&ev).unwrap()) {
             eprintln!("machinery error: cannot write {}: {}", path, e);
             return 2;
